@@ -66,6 +66,9 @@ pub enum Op {
     Cut,
     /// A dials B's address again
     Reconnect,
+    /// environment: outbound substream opens of `node`'s connections are held back (slow round trip for the new
+    /// stream) / released
+    HoldOpens { node: u8, hold: bool },
 }
 
 impl Op {
@@ -80,6 +83,7 @@ impl Op {
             Op::Answer { node, peer, accept } => format!("{}.answer({},{})", n(node), n(peer), if *accept { "accept" } else { "reject" }),
             Op::Cut => "cut(A-B)".into(),
             Op::Reconnect => "A.dial(B)".into(),
+            Op::HoldOpens { node, hold } => format!("{}({})", if *hold { "hold-opens" } else { "release-opens" }, n(node)),
         }
     }
 }
@@ -646,6 +650,7 @@ impl Scenario for NotifScenario {
             Op::Reconnect => {
                 let _ = w.nodes[A as usize].cmd.send(NodeCmd::DialAddress(st.addr_b.clone()));
             }
+            Op::HoldOpens { node, hold } => w.nodes[node as usize].script.set_hold_opens(hold),
         }
         st.pc += 1;
     }
@@ -695,6 +700,8 @@ const AY: Op = Op::SendAsync { from: A, to: B };
 const AOC: Op = Op::Open { from: A, to: C };
 const CUT: Op = Op::Cut;
 const REC: Op = Op::Reconnect;
+const HOLD_A: Op = Op::HoldOpens { node: A, hold: true };
+const FREE_A: Op = Op::HoldOpens { node: A, hold: false };
 const B_ACC: Op = Op::Answer { node: B, peer: A, accept: true };
 const B_REJ: Op = Op::Answer { node: B, peer: A, accept: false };
 const A_ACC: Op = Op::Answer { node: A, peer: B, accept: true };
@@ -754,6 +761,16 @@ pub fn scenarios(thorough: bool) -> Vec<(NotifScenario, usize)> {
         // reopen after a rejection
         scn(&[AO, AO], acc, &[Reject, Accept], false, false),
         scn(&[AO, BO], acc, &[Reject, Accept], true, false),
+        // A rejects B's stream while its own open towards B is still in flight, then asks again (the window in which
+        // the first outbound substream is still pending)
+        scn(&[BO, AO, AO], &[Reject, Accept], acc, false, false),
+        scn(&[AO, BO, AO], &[Reject, Accept], acc, false, false),
+        // ... with A's new outbound substream slow to open, so that the window stays open across whole commands
+        scn(&[HOLD_A, AO, BO, AO, FREE_A], &[Reject, Accept], acc, false, false),
+        scn(&[HOLD_A, AO, BO, FREE_A], &[Reject, Accept], acc, false, false),
+        scn(&[HOLD_A, AO, BO, FREE_A], acc, acc, false, false),
+        scn(&[HOLD_A, AO, AC, AO, FREE_A], acc, acc, false, false),
+        scn(&[HOLD_A, AO, CUT, FREE_A], acc, acc, false, false),
         // notifications
         scn(&[AO, AS, AC], acc, acc, false, false),
         scn(&[AO, BS, BC], acc, acc, true, false),
@@ -777,7 +794,7 @@ pub fn scenarios(thorough: bool) -> Vec<(NotifScenario, usize)> {
         scn(&[AO, AC, BC, BO], acc, acc, true, true),
     ];
     // programs that get two deviations in the quick tier although they are longer than two commands
-    let hypothesis = |s: &NotifScenario| (s.program.len() == 4 && s.program[..3] == [AO, AC, BC]) || s.program == [AO, AO, CUT];
+    let hypothesis = |s: &NotifScenario| (s.program.len() == 4 && s.program[..3] == [AO, AC, BC]) || s.program == [AO, AO, CUT] || s.policy[0].len() == 2;
     let mut v: Vec<(NotifScenario, usize)> = Vec::new();
     for s in hand {
         let n = s.program.len();
